@@ -87,7 +87,7 @@ Definition census_type (R:relname) (t:typedecl) : nat :=
     | DRelation _ fs => ind R RTable + list_sum (map (census_field R) fs)
     | DAlias _ => ind R RAlias
     | DEnum _ => ind R REnum
-    | DOther => 0
+    | DMap _ _ | DOneOf _ | DNoType | DList _ | DUnset => 0
     end
   + attrs_count R OType (t_attrs t).
 Definition census_view (R:relname) (v:view) : nat := ind R RView + attrs_count R OView (v_attrs v).
@@ -215,14 +215,13 @@ Lemma count_type_rows R a t : rel_count R (type_rows a t) = census_type R t.
 Proof.
   unfold type_rows, census_type, rel_count. rewrite cnt_cons, cnt_app. cbn [r_rel mk mk2].
   fold (rel_count R (meta OType a [t_name t] [] [] (t_attrs t))). rewrite count_meta.
-  destruct (t_def t) as [fs|pk fs|mt|items|].
+  destruct (t_def t) as [fs|pk fs|mt|items|mk_ mv_|ts| |lt|]; [| | | |rewrite cnt_nil; lia..].
   - fold (rel_count R (concat (map (field_rows a (t_name t)) (sorted_by f_name fs)))).
     rewrite count_fields_rows, list_sum_map_sorted. lia.
   - rewrite cnt_cons. cbn [r_rel mk mk2]. fold (rel_count R (concat (map (field_rows a (t_name t)) (sorted_by f_name fs)))).
     rewrite count_fields_rows, list_sum_map_sorted. lia.
   - rewrite cnt_cons, cnt_nil. cbn [r_rel mk mk2]. lia.
   - rewrite cnt_cons, cnt_nil. cbn [r_rel mk mk2]. lia.
-  - rewrite cnt_nil. lia.
 Qed.
 
 Lemma count_view_rows R a v : rel_count R (view_rows a v) = census_view R v.
@@ -372,28 +371,48 @@ Proof.
       eexists; split; [apply in_map; eassumption|]. apply IH; assumption.
 Qed.
 
+(* a view whose missing return type is dereferenced *)
+Definition nil_view (g:grammar) (v:view) : Prop := v_ret v = None /\ g_nil g <> NilGuarded.
+Lemma view_fault_iff g v : view_fault g v <> None <-> nil_view g v.
+Proof.
+  unfold view_fault, nil_view. destruct (v_ret v), (g_nil g); split; try congruence; try (intros [H1 H2]; congruence);
+    intros _; split; congruence.
+Qed.
+
+Lemma first_some_app {A} (l1 l2:list (option A)) :
+  first_some (l1 ++ l2) = match first_some l1 with Some x => Some x | None => first_some l2 end.
+Proof. induction l1 as [|[x|] l1 IH]; cbn [List.app first_some]; [reflexivity|reflexivity|exact IH]. Qed.
+
 Lemma module_fault_iff g m :
   module_fault g m <> None <->
-  exists ap e s, In ap m /\ In e (ap_eps ap) /\ ep_visits_stmts e = true /\ In s (e_stmts e) /\ reaches_bad g s.
+  (exists ap e s, In ap m /\ In e (ap_eps ap) /\ ep_visits_stmts e = true /\ In s (e_stmts e) /\ reaches_bad g s) \/
+  (exists ap v, In ap m /\ In v (ap_views ap) /\ nil_view g v).
 Proof.
   unfold module_fault. rewrite first_some_some. split.
   - intros (x & Hx & Hn). apply in_map_iff in Hx. destruct Hx as (ap & <- & Hap).
     unfold app_fault in Hn. apply first_some_some in Hn. destruct Hn as (y & Hy & Hn).
-    apply in_map_iff in Hy. destruct Hy as (e & <- & He). apply sorted_by_In in He.
-    unfold ep_fault in Hn. destruct (ep_visits_stmts e) eqn:Hv; [|congruence].
-    apply first_some_some in Hn. destruct Hn as (z & Hz & Hn). apply in_map_iff in Hz. destruct Hz as (s & <- & Hs).
-    exists ap, e, s. repeat split; try assumption. apply stmt_fault_iff, Hn.
-  - intros (ap & e & s & Hap & He & Hv & Hs & Hr).
-    exists (app_fault g ap). split; [apply in_map, Hap|]. unfold app_fault. apply first_some_some.
-    exists (ep_fault g e). split; [apply in_map, sorted_by_In, He|]. unfold ep_fault. rewrite Hv.
-    apply first_some_some. exists (stmt_fault g s). split; [apply in_map, Hs|]. apply stmt_fault_iff, Hr.
+    apply in_app_or in Hy. destruct Hy as [Hy|Hy].
+    + left. apply in_map_iff in Hy. destruct Hy as (e & <- & He). apply sorted_by_In in He.
+      unfold ep_fault in Hn. destruct (ep_visits_stmts e) eqn:Hv; [|congruence].
+      apply first_some_some in Hn. destruct Hn as (z & Hz & Hn). apply in_map_iff in Hz. destruct Hz as (s & <- & Hs).
+      exists ap, e, s. repeat split; try assumption. apply stmt_fault_iff, Hn.
+    + right. apply in_map_iff in Hy. destruct Hy as (v & <- & Hv). apply sorted_by_In in Hv.
+      exists ap, v. repeat split; try assumption; apply view_fault_iff in Hn; apply Hn.
+  - intros [(ap & e & s & Hap & He & Hv & Hs & Hr)|(ap & v & Hap & Hv & Hn)].
+    + exists (app_fault g ap). split; [apply in_map, Hap|]. unfold app_fault. apply first_some_some.
+      exists (ep_fault g e). split; [apply in_or_app; left; apply in_map, sorted_by_In, He|]. unfold ep_fault. rewrite Hv.
+      apply first_some_some. exists (stmt_fault g s). split; [apply in_map, Hs|]. apply stmt_fault_iff, Hr.
+    + exists (app_fault g ap). split; [apply in_map, Hap|]. unfold app_fault. apply first_some_some.
+      exists (view_fault g v). split; [apply in_or_app; right; apply in_map, sorted_by_In, Hv|]. apply view_fault_iff, Hn.
 Qed.
 
 (* Normalize gives no rows exactly when a statement of a visited endpoint (not "...", not a pubsub event) reaches a
-   return payload the payload reader does not accept; otherwise it answers with rows *)
+   return payload the payload reader does not accept, or - for a parseFieldType that does not guard a nil type - the
+   module has a view without a return type; otherwise it answers with rows *)
 Theorem refused_iff cm am g m :
   (normalize cm am g m = Refused \/ normalize cm am g m = Crashed) <->
-  exists ap e s, In ap m /\ In e (ap_eps ap) /\ ep_visits_stmts e = true /\ In s (e_stmts e) /\ reaches_bad g s.
+  (exists ap e s, In ap m /\ In e (ap_eps ap) /\ ep_visits_stmts e = true /\ In s (e_stmts e) /\ reaches_bad g s) \/
+  (exists ap v, In ap m /\ In v (ap_views ap) /\ nil_view g v).
 Proof.
   rewrite <- module_fault_iff. unfold normalize. destruct (module_fault g m) as [[|]|].
   - split; [discriminate|]. intros _. left; reflexivity.
@@ -418,13 +437,15 @@ Proof.
     specialize (IH ch Hin). cbn beta in IH. rewrite Forall_forall in IH. exact (IH c Hin2 Hc).
 Qed.
 
-Theorem normalize_never_crashes cm am g m : g_dup g <> DupPanics -> normalize cm am g m <> Crashed.
+Theorem normalize_never_crashes cm am g m : g_dup g <> DupPanics -> g_nil g = NilGuarded -> normalize cm am g m <> Crashed.
 Proof.
-  intros Hg. unfold normalize. destruct (module_fault g m) as [[|]|] eqn:E; try discriminate. exfalso.
+  intros Hg Hn. unfold normalize. destruct (module_fault g m) as [[|]|] eqn:E; try discriminate. exfalso.
   unfold module_fault in E. apply first_some_in, in_map_iff in E. destruct E as (ap & E & _).
-  unfold app_fault in E. apply first_some_in, in_map_iff in E. destruct E as (e & E & _).
-  unfold ep_fault in E. destruct (ep_visits_stmts e); [|discriminate].
-  apply first_some_in, in_map_iff in E. destruct E as (s & E & _). exact (stmt_fault_no_crash g s Hg E).
+  unfold app_fault in E. apply first_some_in, in_app_or in E. destruct E as [E|E]; apply in_map_iff in E.
+  - destruct E as (e & E & _).
+    unfold ep_fault in E. destruct (ep_visits_stmts e); [|discriminate].
+    apply first_some_in, in_map_iff in E. destruct E as (s & E & _). exact (stmt_fault_no_crash g s Hg E).
+  - destruct E as (v & E & _). unfold view_fault in E. rewrite Hn in E. destruct (v_ret v); discriminate.
 Qed.
 
 Definition crash_module : module :=
@@ -436,3 +457,17 @@ Definition crash_module : module :=
 Theorem normalize_never_crashes_refuted_for_unchecked_duplicates :
   exists m, normalize CopyParent CopyParent grammar_before m = Crashed.
 Proof. exists crash_module. vm_compute. reflexivity. Qed.
+
+(* ... and a module whose only content is a view without a return type (`!view v(p <: T): p -> (: ... )`, nothing
+   declared, nothing inferred) crashes a parseFieldType that dereferences the nil type - whatever the payload reader does *)
+Definition nil_view_module : module :=
+  [{| ap_name := [8%positive]; ap_sname := [[65%N]]; ap_long := 9%positive; ap_doc := 9%positive; ap_attrs := StmtProps.no_attrs;
+      ap_mixins := []; ap_types := []; ap_eps := [];
+      ap_views := [{| v_name := 12%positive; v_ret := None; v_attrs := StmtProps.no_attrs; v_params := []; v_expr := 9%positive |}] |}].
+Theorem normalize_never_crashes_refuted_for_nil_view_type :
+  exists m, normalize CopyParent CopyParent
+              {| g_prim_mode := PrimWord; g_prims := []; g_mods := ModsSorted; g_dup := DupRefused; g_nil := NilDeref |} m = Crashed /\
+            exists rs, normalize CopyParent CopyParent
+              {| g_prim_mode := PrimWord; g_prims := []; g_mods := ModsSorted; g_dup := DupRefused; g_nil := NilGuarded |} m = Rows rs /\
+                       rel_count RView rs = 1.
+Proof. exists nil_view_module. split; [vm_compute; reflexivity|eexists; split; vm_compute; reflexivity]. Qed.
